@@ -355,7 +355,7 @@ def run(ctx):
                        "single operation (6 key atoms x 4 value atoms, 24 update/|= arguments) from 5 state shapes x 9 validator "
                        "pairs x 3 targets (thorough: all, quick: every 12th, offset by the seed)")
     rnd = random.Random(ctx.seed)
-    n, maxlen = (1500, 10) if ctx.tier == "quick" else (24000, 30)
+    n, maxlen = (1500, 10) if ctx.tier == "quick" else (16000, 30)
     if ctx.replay:
         cases = [json.load(open(ctx.replay))["replay"]["case"]]
     else:
@@ -363,6 +363,12 @@ def run(ctx):
         cases += grid(ctx, 1, 0) if ctx.tier == "thorough" else grid(ctx, 12, ctx.seed)
     for c in cases[:2] + cases[-2:]:
         ctx.sample(c)
+    _evaluate = hist.evaluate
+
+    def sharded(*a, **k):              # smaller shards: a 1000-history coqc process needs > 1 GB in the thorough tier
+        k["shard"] = 400
+        return _evaluate(*a, **k)
+    hist.evaluate = sharded
     hist.run(ctx, "c06_driver.py", cases, to_term, HEADER, CASE_T, key_fn, describe, nontrivial,
              relation="C06.Corr.corr_codes (Model.step = TraitDict on every step)")
     proof_gate(ctx, ok, log, PROPS)
